@@ -117,7 +117,8 @@ class World:
             self.loader = faulty(CachingDictLoader)(self.store, **kw)
         elif kind == "choice":
             self.store = {n: src_of(n, 1) for n in self.names}
-            self.loader = faulty(CachingChoiceLoader)([DictLoader({}), DictLoader(self.store)], **kw)
+            self.store1: dict[str, str] = {}  # the loader that is asked first; `shadow` puts a name into it
+            self.loader = faulty(CachingChoiceLoader)([DictLoader(self.store1), DictLoader(self.store)], **kw)
         elif kind == "matter":
             from liquid2.builtin.loaders.mixins import CachingLoaderMixin
             from liquid2.loader import TemplateSource
@@ -208,13 +209,19 @@ class World:
         nv = self.last[name] + 1
         self.last[name] = nv
         self.p1[name] = nv
-        self._write(name, nv, "p1")
+        if self.cfg["loader"] == "choice":
+            self.store1[name] = src_of(name, nv)
+        else:
+            self._write(name, nv, "p1")
 
     def unshadow(self, name: str) -> None:
         if self.p1[name] is None:
             return
         self.p1[name] = None
-        os.unlink(os.path.join(self.root, "p1", name))  # type: ignore[arg-type]
+        if self.cfg["loader"] == "choice":
+            del self.store1[name]
+        else:
+            os.unlink(os.path.join(self.root, "p1", name))  # type: ignore[arg-type]
 
     # -- operations against the implementation
     def load_render(self, name: str, ns: str | None, who: str | None, mode: str, hold: bool = True) -> tuple:
@@ -309,7 +316,7 @@ class World:
             # freshness check, which the synchronous path has to treat differently
             u = t.uptodate
             f = getattr(u, "func", u)
-            how = "-" if u is None or self.cfg["loader"] not in ("fs", "fs2") else "a" if inspect.iscoroutinefunction(f) else "s"
+            how = "-" if u is None or self.cfg["loader"] not in ("fs", "fs2", "choice") else "a" if inspect.iscoroutinefunction(f) else "s"
             items.append((key, out, how))
         return tuple(items)
 
@@ -342,6 +349,12 @@ class Model:
     def has_freshness(self) -> bool:
         return self.cfg["loader"] in ("fs", "fs2")
 
+    def tracks_how(self) -> bool:
+        """Loaders whose cached templates carry a freshness callable (synchronous or asynchronous, depending on how the
+        template was loaded): the file-backed ones, and the choice loader, which wraps every source found in a later
+        loader with a check that no earlier loader has the name."""
+        return self.cfg["loader"] in ("fs", "fs2", "choice")
+
     def bump(self, name: str, where: str, older: bool = False) -> None:
         self.last[name] += 1
         getattr(self, where)[name] = self.last[name]
@@ -356,20 +369,25 @@ class Model:
         cur = self.versions[name]
         entry = self.cache.get(key)
         how = "a" if asynch else "s"
+        if self.cfg["loader"] == "choice" and self.p1[name] is not None:
+            how = "-"  # found in the FIRST loader: the source is handed on as it is, without a freshness callable
         if entry is not None:
             self.cache.move_to_end(key)
             stale = entry["ver"] != cur
             # an entry loaded asynchronously carries an asynchronous freshness check; the synchronous path cannot
             # evaluate it and looks the source up again (the uncached loader's answer, so still transparent)
-            unknown = entry["how"] == "a" and not asynch
-            if self.cfg["auto_reload"] and self.has_freshness() and (stale or unknown):
+            unknown = entry["how"] == "a" and not asynch and self.tracks_how()
+            # a choice loader over loaders without freshness information of their own notices exactly one thing: a
+            # template found in a later loader is stale once an earlier loader has the name
+            shadowed = self.cfg["loader"] == "choice" and entry["from"] == "p2" and self.p1[name] is not None
+            if self.cfg["auto_reload"] and ((self.has_freshness() and stale) or unknown or shadowed):
                 # the uncached loader's answer at this moment
                 if self.fail_next:
                     self.fail_next = False
                     return ("liquid", "TemplateNotFoundError")
                 if cur is None:
                     return ("liquid", "TemplateNotFoundError")
-                self.cache[key] = {"ver": cur, "who": bound, "name": name, "how": how}
+                self.cache[key] = {"ver": cur, "who": bound, "name": name, "how": how, "from": "p1" if self.p1[name] is not None else "p2"}
                 if hold:
                     self.held = (key, name, cur, who)
                 return ("ok", expect_out(name, cur, who))
@@ -385,14 +403,14 @@ class Model:
         if len(self.cache) >= self.cfg["capacity"]:
             self.cache.popitem(last=False)
             self.dirty = True
-        self.cache[key] = {"ver": cur, "who": bound, "name": name, "how": how}
+        self.cache[key] = {"ver": cur, "who": bound, "name": name, "how": how, "from": "p1" if self.p1[name] is not None else "p2"}
         if hold:
             self.held = (key, name, cur, who)
         return ("ok", expect_out(name, cur, who))
 
     def state(self) -> tuple:
         return (
-            tuple((k, v["ver"], v["who"], v["how"] if self.has_freshness() else "-") for k, v in self.cache.items()),
+            tuple((k, v["ver"], v["who"], v["how"] if self.tracks_how() else "-", v["from"]) for k, v in self.cache.items()),
             tuple(sorted(self.p1.items(), key=lambda kv: kv[0])), tuple(sorted(self.p2.items(), key=lambda kv: kv[0])),
             tuple(sorted(self.older.items(), key=lambda kv: kv[0])) if self.has_freshness() else (),
             self.fail_next,
@@ -420,6 +438,7 @@ def configs(tier: str) -> list[dict[str, Any]]:
     out.append({"loader": "dict", "capacity": 2, "auto_reload": True, "nsmode": "kwarg", "names": ("n1", "y/n1"), "nss": (None, "x", "x/y")})  # slashes on both sides
     out.append({"loader": "fs2", "capacity": 2, "auto_reload": True, "nsmode": "none", "names": names[:2]})  # two search paths, shadowing
     out.append({"loader": "fs2", "capacity": 1, "auto_reload": False, "nsmode": "none", "names": names[:1]})
+    out.append({"loader": "choice", "capacity": 2, "auto_reload": True, "nsmode": "none", "names": names[:2], "shadowing": True})  # a name appears in the earlier loader
     return out
 
 
@@ -447,7 +466,7 @@ def alphabet_for(cfg: dict[str, Any], tier: str) -> list[tuple]:
         ops.append(("delete", n))
         if cfg["loader"] in ("fs", "fs2"):
             ops.append(("modify_older", n))
-        if cfg["loader"] == "fs2":
+        if cfg["loader"] == "fs2" or (cfg["loader"] == "choice" and cfg.get("shadowing")):
             ops.append(("shadow", n))
             ops.append(("unshadow", n))
     ops.append(("fail_next",))
